@@ -72,104 +72,24 @@ private theorem all_ite {seen : List Val} {c : Prop} [Decidable c] {a b : List G
 
 /-- one step of one Get keeps the accounting: the server's key stays accounted, `seen` only
 grows, and the Get's new state is accounted -/
+@[simp] private theorem keepalive_key (t : Srv) (d : Nat) : (keepalive t d).key = t.key := by unfold keepalive; split <;> rfl
+@[simp] private theorem keepalive_seen (t : Srv) (d : Nat) : (keepalive t d).seen = t.seen := by unfold keepalive; split <;> rfl
+@[simp] private theorem keepalive_loads (t : Srv) (d : Nat) : (keepalive t d).loads = t.loads := by unfold keepalive; split <;> rfl
+
 theorem gstep_good (s : Srv) (g : G) (load : Option Val) (hk : KeyOk s) (hg : GoodG s.seen g) :
     KeyOk (gstep s g load).1 ∧ (∀ v, v ∈ s.seen → v ∈ (gstep s g load).1.seen) ∧
       GoodG (gstep s g load).1.seen (gstep s g load).2 := by
-  unfold gstep
-  by_cases hc : g.cancelled
-  · simp only [hc, if_true]
-    unfold gstepCancelled
-    cases hpc : g.pc with
-    | start => exact ⟨hk, fun _ h => h, by simp [GoodG]⟩
-    | locking =>
-      refine ⟨?_, ?_, by simp [GoodG]⟩
-      · unfold keepalive; split <;> exact hk
-      · unfold keepalive; split <;> exact fun _ h => h
-    | loading =>
-      cases load with
-      | none => exact ⟨hk, fun _ h => h, by simp [GoodG]⟩
-      | some v =>
-        refine ⟨fun x hx => List.mem_cons_of_mem _ (hk x hx), fun _ h => List.mem_cons_of_mem _ h, ?_⟩
-        simp [GoodG]
-    | storing v =>
-      refine ⟨?_, fun _ h => h, by simp [GoodG]⟩
-      intro x hx; simp only [delkey] at hx; split at hx
-      · cases hx
-      · exact hk x hx
-    | releasing =>
-      refine ⟨?_, fun _ h => h, by simp [GoodG]⟩
-      intro x hx; simp only [delkey] at hx; split at hx
-      · cases hx
-      · exact hk x hx
-    | checkHolder i => exact ⟨hk, fun _ h => h, by simp [GoodG]⟩
-    | freeing i =>
-      refine ⟨?_, fun _ h => h, by simp [GoodG]⟩
-      intro x hx; simp only [delkey] at hx; split at hx
-      · cases hx
-      · exact hk x hx
-    | waiting i => exact ⟨hk, fun _ h => h, by simp [GoodG]⟩
-    | done r => exact ⟨hk, fun _ h => h, by simpa [hpc] using hg⟩
-  · simp only [hc]
-    unfold gstepLive
-    cases hpc : g.pc with
-    | start =>
-      cases hkey : s.key with
-      | none => exact ⟨hk, fun _ h => h, by simp [GoodG]⟩
-      | some v =>
-        cases v with
-        | value x => exact ⟨hk, fun _ h => h, by simp [GoodG, isValue, hk x hkey]⟩
-        | ph i => exact ⟨hk, fun _ h => h, by simp [GoodG]⟩
-    | locking =>
-      have hka : KeyOk (keepalive s g.id) := by unfold keepalive; split <;> exact hk
-      have hkk : (keepalive s g.id).key = s.key := by unfold keepalive; split <;> rfl
-      have hks : (keepalive s g.id).seen = s.seen := by unfold keepalive; split <;> rfl
-      cases hkey : s.key with
-      | none =>
-        simp only [acquire, hkk, hkey]
-        refine ⟨?_, fun _ h => hks ▸ h, by simp [GoodG]⟩
-        intro x hx; cases hx
-      | some v =>
-        cases v with
-        | value x =>
-          simp only [acquire, hkk, hkey]
-          exact ⟨hka, fun _ h => hks ▸ h, by simp [GoodG, isValue, hks, hk x hkey]⟩
-        | ph i =>
-          simp only [acquire, hkk, hkey]
-          exact ⟨hka, fun _ h => hks ▸ h, by simp [GoodG]⟩
-    | loading =>
-      cases load with
-      | none => exact ⟨hk, fun _ h => h, by simp [GoodG]⟩
-      | some v =>
-        refine ⟨fun x hx => List.mem_cons_of_mem _ (hk x hx), fun _ h => List.mem_cons_of_mem _ h, ?_⟩
-        simp [GoodG]
-    | storing v =>
-      have hv : v ∈ s.seen := hg.2 v hpc
-      refine ⟨?_, fun _ h => h, ?_⟩
-      · intro x hx
-        simp only [setkey] at hx
-        split at hx
-        · simp only at hx; cases hx; exact hv
-        · exact hk x hx
-      · cases v with
-        | value x => simp [GoodG, isValue, hv]
-        | ph i => simp [GoodG]
-    | releasing =>
-      refine ⟨?_, fun _ h => h, by simp [GoodG]⟩
-      intro x hx; simp only [delkey] at hx; split at hx
-      · cases hx
-      · exact hk x hx
-    | checkHolder i =>
-      split <;> exact ⟨hk, fun _ h => h, by simp [GoodG]⟩
-    | freeing i =>
-      refine ⟨?_, fun _ h => h, by simp [GoodG]⟩
-      intro x hx; simp only [delkey] at hx; split at hx
-      · cases hx
-      · exact hk x hx
-    | waiting i =>
-      split
-      · exact ⟨hk, fun _ h => h, by simp [GoodG]⟩
-      · exact ⟨hk, fun _ h => h, hg⟩
-    | done r => exact ⟨hk, fun _ h => h, by simpa [hpc] using hg⟩
+  obtain ⟨id, pc, wk, wi, canc⟩ := g
+  obtain ⟨key, alive, started, seen, loads⟩ := s
+  simp only [KeyOk, GoodG] at *
+  cases canc <;> cases pc <;> simp only [gstep, gstepLive, gstepCancelled, Bool.false_eq_true, if_false, if_true]
+  all_goals (try (cases load))
+  all_goals (rcases key with _ | (_ | _))
+  all_goals (try simp only [acquire, keepalive_key])
+  all_goals (repeat' split)
+  all_goals simp_all [isValue, setkey, delkey]
+  all_goals (try (intro x; split <;> simp_all))
+  all_goals (intro h; subst h; assumption)
 
 theorem inv_next (s : Sys) (e : Ev) (h : Inv s) : Inv (next s e) := by
   obtain ⟨hk, hgs⟩ := h
@@ -205,8 +125,8 @@ theorem inv_next (s : Sys) (e : Ev) (h : Inv s) : Inv (next s e) := by
       rcases List.mem_or_eq_of_mem_set hx with h | h
       · exact hgs x h
       · exact h ▸ goodG_pc (g := g) rfl (hgs g (List.mem_of_getElem? hgi))
-  | del => exact ⟨fun x hx => by cases hx, all_ite hgs (all_wakeKey hgs)⟩
-  | expire => exact ⟨fun x hx => by cases hx, all_ite hgs (all_wakeKey hgs)⟩
+  | del => exact ⟨(fun x hx => by cases hx), all_ite hgs (all_wakeKey hgs)⟩
+  | expire => exact ⟨(fun x hx => by cases hx), all_ite hgs (all_wakeKey hgs)⟩
   | put v =>
     refine ⟨?_, all_wakeKey (fun g hg => goodG_mono (fun _ h => List.mem_cons_of_mem _ h) (hgs g hg))⟩
     intro x hx
@@ -221,7 +141,7 @@ theorem inv_run (s : Sys) (es : List Ev) (h : Inv s) : Inv (run s es) := by
   | nil => exact h
   | cons e r ih => exact ih _ (inv_next s e h)
 
-private theorem inv_init : Inv {} := ⟨fun x hx => by cases hx, fun g hg => by cases hg⟩
+private theorem inv_init : Inv {} := ⟨(fun x hx => by cases hx), (fun g hg => by cases hg)⟩
 
 /-- for every interleaving, a value returned by Get is never the lock placeholder -/
 theorem never_returns_placeholder (es : List Ev) (g : G) (v : Val)
@@ -250,6 +170,24 @@ def touches (s : Sys) (c : Nat) : Ev → Bool
     | none => false
   | _ => false
 
+private theorem gstep_keeps_ph (s : Srv) (g : G) (load : Option Val) (c : Nat) (hk : s.key = some (.ph c))
+    (ht : (match g.pc with
+        | .storing _ => g.id == c
+        | .releasing => g.id == c
+        | .freeing j => j == c
+        | _ => false) = false) :
+    (gstep s g load).1.key = some (.ph c) ∧ (gstep s g load).1.loads = s.loads := by
+  obtain ⟨id, pc, wk, wi, canc⟩ := g
+  obtain ⟨key, alive, started, seen, loads⟩ := s
+  simp only at hk
+  subst hk
+  cases canc <;> cases pc <;> simp only [gstep, gstepLive, gstepCancelled, Bool.false_eq_true, if_false, if_true]
+  all_goals (try (cases load))
+  all_goals (try simp only [acquire, keepalive_key])
+  all_goals (repeat' split)
+  all_goals simp_all [setkey, delkey]
+  all_goals (split <;> simp_all)
+
 /-- while client `c`'s placeholder is in the key, no other event changes the key or starts a
 loader: every other Get's lock attempt fails and it waits -/
 theorem placeholder_stable (s : Sys) (c : Nat) (e : Ev) (hk : s.srv.key = some (.ph c))
@@ -269,47 +207,7 @@ theorem placeholder_stable (s : Sys) (c : Nat) (e : Ev) (hk : s.srv.key = some (
     | none => exact ⟨hk, rfl⟩
     | some g =>
       simp only [touches, hgi] at ht
-      have hkk : (keepalive s.srv g.id).key = s.srv.key := by unfold keepalive; split <;> rfl
-      have hkl : (keepalive s.srv g.id).loads = s.srv.loads := by unfold keepalive; split <;> rfl
-      suffices h : (gstep s.srv g load).1.key = some (.ph c) ∧ (gstep s.srv g load).1.loads = s.srv.loads from h
-      unfold gstep
-      by_cases hc : g.cancelled
-      · simp only [hc, if_true]
-        unfold gstepCancelled
-        cases hpc : g.pc with
-        | start => exact ⟨hk, rfl⟩
-        | locking => exact ⟨hkk ▸ hk, hkl⟩
-        | loading => cases load <;> exact ⟨hk, rfl⟩
-        | storing v =>
-          simp only [hpc, beq_eq_false_iff_ne, ne_eq] at ht
-          simp [delkey, hk, ht]
-        | releasing =>
-          simp only [hpc, beq_eq_false_iff_ne, ne_eq] at ht
-          simp [delkey, hk, ht]
-        | checkHolder j => exact ⟨hk, rfl⟩
-        | freeing j =>
-          simp only [hpc, beq_eq_false_iff_ne, ne_eq] at ht
-          simp [delkey, hk, ht]
-        | waiting j => exact ⟨hk, rfl⟩
-        | done r => exact ⟨hk, rfl⟩
-      · simp only [hc]
-        unfold gstepLive
-        cases hpc : g.pc with
-        | start => simp only [hk]; exact ⟨hk, rfl⟩
-        | locking => simp only [acquire, hkk, hk]; exact ⟨hkk ▸ hk, hkl⟩
-        | loading => cases load <;> exact ⟨hk, rfl⟩
-        | storing v =>
-          simp only [hpc, beq_eq_false_iff_ne, ne_eq] at ht
-          simp [setkey, hk, ht]
-        | releasing =>
-          simp only [hpc, beq_eq_false_iff_ne, ne_eq] at ht
-          simp [delkey, hk, ht]
-        | checkHolder j => split <;> exact ⟨hk, rfl⟩
-        | freeing j =>
-          simp only [hpc, beq_eq_false_iff_ne, ne_eq] at ht
-          simp [delkey, hk, ht]
-        | waiting j => split <;> exact ⟨hk, rfl⟩
-        | done r => exact ⟨hk, rfl⟩
+      exact gstep_keeps_ph s.srv g load c hk ht
 
 /-- over any stretch of events none of which touches `c`'s placeholder, the loader count does
 not move: concurrent Gets of all clients run no second loader and wait for the holder -/
@@ -328,29 +226,14 @@ theorem one_loader_while_holder_alive (c : Nat) (es : List Ev) (s : Sys) (hk : s
 as the holder is alive nobody enters `freeing c` -/
 theorem freeing_needs_dead (s : Srv) (g : G) (load : Option Val) (c : Nat)
     (h : (gstep s g load).2.pc = .freeing c) (hn : g.pc ≠ .freeing c) : c ∉ s.alive := by
-  unfold gstep at h
-  by_cases hc : g.cancelled
-  · simp only [hc, if_true] at h
-    unfold gstepCancelled at h
-    cases hpc : g.pc <;> simp only [hpc] at h <;> try (simp at h)
-    · rename_i l; cases load <;> simp at h
-    · exact absurd (hpc ▸ rfl) (h ▸ hn) |> False.elim
-  · simp only [hc] at h
-    unfold gstepLive at h
-    cases hpc : g.pc with
-    | start => simp only [hpc] at h; split at h <;> simp at h
-    | locking => simp only [hpc] at h; split at h <;> simp at h
-    | loading => simp only [hpc] at h; cases load <;> simp at h
-    | storing v => simp only [hpc] at h; cases v <;> simp at h
-    | releasing => simp [hpc] at h
-    | checkHolder j =>
-      simp only [hpc] at h
-      split at h
-      · simp at h
-      · rename_i hj; simp at h; exact h ▸ hj
-    | freeing j => simp [hpc] at h
-    | waiting j => simp only [hpc] at h; split at h <;> simp [hpc] at h
-    | done r => simp [hpc] at h
+  obtain ⟨id, pc, wk, wi, canc⟩ := g
+  obtain ⟨key, alive, started, seen, loads⟩ := s
+  cases canc <;> cases pc <;> simp only [gstep, gstepLive, gstepCancelled, Bool.false_eq_true, if_false, if_true] at h
+  all_goals (try (cases load))
+  all_goals (rcases key with _ | (_ | _))
+  all_goals (try simp only [acquire, keepalive_key] at h)
+  all_goals (repeat' split at h)
+  all_goals simp_all
 
 /-! ### 4. a dead holder's placeholder is released -/
 
@@ -364,9 +247,7 @@ placeholder, takes the lock and runs its loader -/
 theorem dead_holder_released (s : Srv) (c d : Nat) (hk : s.key = some (.ph c)) (hdead : c ∉ s.alive) :
     (gsteps s { id := d } 5).2.pc = .loading ∧ (gsteps s { id := d } 5).1.key = some (.ph d) ∧
       (gsteps s { id := d } 5).1.loads = s.loads + 1 := by
-  have hkk : ∀ t : Srv, (keepalive t d).key = t.key := by intro t; unfold keepalive; split <;> rfl
-  have hkl : ∀ t : Srv, (keepalive t d).loads = t.loads := by intro t; unfold keepalive; split <;> rfl
-  simp [gsteps, gstep, gstepLive, hk, hdead, delkey, acquire, hkk, hkl]
+  simp [gsteps, gstep, gstepLive, hk, hdead, delkey, acquire]
 
 /-! ### 5. script facts and non-vacuity -/
 theorem acquire_iff_absent (id : Nat) (k : Option Val) : (acquire id k).2 = none ↔ k = none := by
